@@ -30,7 +30,7 @@ from ..model import dims as D
 from ..model import qexpr as Q
 from ..model import units as MU
 from ..pool import run_tasks, shard_counts
-from ..shrink import get_at, replace_at, shrink
+from ..shrink import get_at, paths, replace_at, shrink
 from . import c05 as G
 
 # C05 also draws exact magnitudes outside the range of a double (10**400): they are kept out of C06, where values are
@@ -267,6 +267,29 @@ def case_strategy(draw: Any, cls: str, no_indexed: bool = False) -> dict[str, An
     tree = G.g_expr(draw, dj, depth, False, True, pi)
     if draw(st.integers(0, 9)) < 8:
         tree = numeric_exponents(tree)
+    # applied library functions get composite arguments now and then: m(t) -> m(2*t), m(t + t) (still well-formed) or, in
+    # the spoil class, m(t + l) with inequivalent dimensions inside the argument list (must be reported)
+    fpaths = [p for p in paths(tree) if isinstance(get_at(tree, p), list) and get_at(tree, p)[:1] == ["F"] and get_at(tree, p)[2]]
+    arg_tag = None
+    if fpaths and draw(st.integers(0, 2)) == 0:
+        fp = draw(st.sampled_from(fpaths))
+        node = get_at(tree, fp)
+        ai = draw(st.integers(0, len(node[2]) - 1))
+        arg = node[2][ai]
+        if arg[0] == "S":
+            same = [j for j, d in enumerate(pool["S"]) if list(d) == list(pool["S"][arg[1]])]
+            other = [j for j, d in enumerate(pool["S"]) if list(d) != list(pool["S"][arg[1]])]
+            if cls == "spoil" and other and draw(st.booleans()):
+                new_arg, arg_tag = ["add", arg, ["S", draw(st.sampled_from(other))]], "fn_arg_add_dims"
+            elif draw(st.booleans()):
+                new_arg, arg_tag = ["add", arg, ["S", draw(st.sampled_from(same))]], None
+            else:
+                new_arg, arg_tag = ["mul", ["n", draw(st.sampled_from(["2", "1/2", "3"]))], arg], None
+            new_node = [node[0], node[1], node[2][:ai] + [new_arg] + node[2][ai + 1:]]
+            tree = replace_at(tree, fp, new_node) if fp else new_node
+    if arg_tag is not None:
+        case.update(tree=tree, tag="spoil:" + arg_tag, dim=None)
+        return case
     if cls == "valid":
         case.update(tree=tree, tag="valid", dim=list(dj))
     elif cls == "spoil":
